@@ -15,6 +15,7 @@ Check C09_exact_follow_partial :
   forall sel_file sel_dir ign1 t c sched roots l x,
     c_follow c = true -> c_no_ignore c = true -> c_one_fs c = false ->
     N.of_nat (length (keys t)) < c_depth c -> (forall p, sel_dir p = true) ->
+    (c_hidden c = true \/ forall p, In p (keys t) -> name_hidden p = false) ->
     scan sel_file sel_dir ign1 t c sched roots = Done l ->
     (In x l <-> selected sel_file sel_dir ign1 t c false roots x /\ size_ok t c x = true).
 Check C09_N1_witness :
